@@ -121,7 +121,9 @@ fn check_other_kind(t: &mut Tally, p: &str, names: &[String]) {
         _ => return,
     };
     let pc: Vec<char> = p.chars().collect();
-    for n in names {
+    // the pattern's own text is a name too: it is not one of its expansions, and has no '-'
+    let own = [p.to_string(), format!("{}-1", p)];
+    for n in names.iter().chain(own.iter()) {
         let want = mpat::matches(p, n, LetterWeight::Rank);
         if want != mpat::matches(p, n, LetterWeight::AsciiLower) {
             continue; // depends on a letter's weight (C01's known finding)
@@ -188,6 +190,27 @@ fn main() {
     run.assume("glob subset: no '**', at most 3 '*', no '^', no reversed ranges, no ']' '-' '!' as set members (statement domain)");
     run.assume("reference glob matcher: mc/core/src/model/glob.rs");
 
+    // comparison and brace patterns: the shortcut must be inert for them too
+    let other_names: Vec<String> = {
+        let mut v = vec![];
+        let mut pre = vec![];
+        let mut visit = |s: &[usize]| v.push(s.iter().map(|i| OTHER_NAME_CH[*i]).collect::<String>());
+        seqs::dfs(OTHER_NAME_CH.len(), 4, &mut pre, &|_| false, &mut visit);
+        v
+    };
+    let k = run.pick(4, 5);
+    run.bound(format!(
+        "other kinds: all {} token strings of <= {} tokens over {:?} that contain a comparison operator or a brace x all {} names of <= 4 characters over {:?}",
+        seqs::count(OTHER_TOK.len(), k), k, OTHER_TOK, other_names.len(), OTHER_NAME_CH
+    ));
+    seqs::par_seqs(&run, "C05 other kinds", OTHER_TOK.len(), k, 2, |_| false, |s, t| {
+        let p: String = s.iter().map(|i| OTHER_TOK[*i]).collect();
+        if !(p.contains('<') || p.contains('>') || p.contains('{') || p.contains('}')) {
+            return;
+        }
+        t.transitions += other_names.len() as u64;
+        check_other_kind(t, &p, &other_names);
+    });
     let n = run.pick(4, 4);
     let names = all_names(4);
     run.bound(format!(
@@ -220,27 +243,6 @@ fn main() {
                 }
             }
         }
-    });
-    // comparison and brace patterns: the shortcut must be inert for them too
-    let other_names: Vec<String> = {
-        let mut v = vec![];
-        let mut pre = vec![];
-        let mut visit = |s: &[usize]| v.push(s.iter().map(|i| OTHER_NAME_CH[*i]).collect::<String>());
-        seqs::dfs(OTHER_NAME_CH.len(), 4, &mut pre, &|_| false, &mut visit);
-        v
-    };
-    let k = run.pick(4, 5);
-    run.bound(format!(
-        "other kinds: all {} token strings of <= {} tokens over {:?} that contain a comparison operator or a brace x all {} names of <= 4 characters over {:?}",
-        seqs::count(OTHER_TOK.len(), k), k, OTHER_TOK, other_names.len(), OTHER_NAME_CH
-    ));
-    seqs::par_seqs(&run, "C05 other kinds", OTHER_TOK.len(), k, 2, |_| false, |s, t| {
-        let p: String = s.iter().map(|i| OTHER_TOK[*i]).collect();
-        if !(p.contains('<') || p.contains('>') || p.contains('{') || p.contains('}')) {
-            return;
-        }
-        t.transitions += other_names.len() as u64;
-        check_other_kind(t, &p, &other_names);
     });
     // scale: long patterns and names
     {
@@ -286,6 +288,11 @@ fn main() {
                 format!("{}", c), format!("{}a", c), format!("a{}", c), "a".into(), String::new(), format!("{}{}", c, c), format!("a{}a", c), format!("a{}b", c), format!("x{}", c), format!("{}-1.0", c),
             ];
             let mut pats = vec![format!("{}", c), format!("{}a", c), format!("a{}", c), format!("{}*", c), format!("*{}", c), format!("?{}", c), format!("a{}[ab]", c)];
+            if c == '\\' {
+                // the statement's glob subset does not say whether a backslash escapes: only plain
+                // (meta-free) patterns, which are exact names
+                pats.truncate(3);
+            }
             if !"!^-\\".contains(c) {
                 pats.push(format!("[!{}]x", c));
                 pats.push(format!("[{}a]", c));
@@ -303,6 +310,12 @@ fn main() {
                 t.states += 1;
                 check(&mut t, p, &names2);
             }
+        }
+        // glob metacharacters as set members are literals
+        let names3: Vec<String> = ["*", "?", "a", "a?b", "a*b", "axb", "ab", "", "**", "a*", "a?", "[", "[*]", "x"].iter().map(|s| s.to_string()).collect();
+        for p in ["[*]", "[?]", "[*a]", "a[?]b", "[!*]", "a[*?]", "[?]*", "*[*]", "a[*]b"] {
+            t.states += 1;
+            check(&mut t, p, &names3);
         }
         run.merge(t);
     }
